@@ -124,6 +124,10 @@ impl Parse for FmtAttribute {
             args: input.parse_terminated(FmtArgument::parse, token::Comma)?,
         };
         parsed.args.pop_punct();
+        if parsed.args.is_empty() {
+            // A trailing comma after the literal is re-emitted only in front of arguments.
+            parsed.comma = None;
+        }
         Ok(parsed)
     }
 }
